@@ -186,6 +186,9 @@ func runProp(t *testing.T, id string, draw func(*rapid.T) *core.Case) {
 		c.Prop = id
 		v := getChild().Run(c, caseTimeout())
 		record(c, v)
+		if v.Status == "crash" || v.Status == "hang" {
+			v.Detail = fmt.Sprintf("query: %s\nwindow: start=%d end=%d step=%d (steps=%d) procs=%d series=%d fault=%v\n%s", c.Query, c.Start, c.End, c.Step, c.NumSteps(), c.Procs, len(c.Series), c.Fault, v.Detail)
+		}
 		if v.Bad() {
 			statMu.Lock()
 			lastBad = &failure{Case: c, Verdict: v}
